@@ -494,7 +494,7 @@ class Kernel:
         return True
 
     # -- driver side -----------------------------------------------------
-    def run(self, wall_timeout=60.0):
+    def run(self, wall_timeout=300.0):
         """Called from the driver thread after the initial tasks were spawned."""
         if not self.tasks:
             return None
